@@ -73,6 +73,17 @@ let run_case (line : string) =
      done;
      out_str "F"; out_zlist (snd !st)
    | "trim" -> let s = next_zlist t in out_zlist (trim_space s)
+   | "disp" ->
+     let vi = next_bool t in let cm = next_bool t in
+     let tbl = next_list (fun t -> let sq = next_zlist t in let a = next_zlist t in let m = next_bool t in (sq, (a, m))) t in
+     let reg = next_list next_zlist t in
+     let ins = next_list (fun t -> let k = next_int t in let bs = next_zlist t in if k = 0 then Chunk bs else Eof) t in
+     let registered a = List.exists (fun r -> cmp_zl r a = 0) reg in
+     let o = loop (nat_of_int 20000) cm tbl registered (init_state vi) ins in
+     let (code, st) = (match o with Waiting s -> (0, s) | Ended s -> (1, s) | NoFuel s -> (2, s)) in
+     out_int code;
+     out_list (fun (a, ks) -> out_zlist a; out_zlist ks) st.l_log;
+     out_zlist st.l_keys.k_buf; out_zlist st.l_keys.k_macro; out_bool st.l_keys.k_must_wait
    | "quote" -> let c = next_z t in out_zlist (quote c)
    | _ -> out_str ("UNKNOWN-OP " ^ op));
   flush_line ()
